@@ -730,3 +730,307 @@ MUTANTS = [
     M("vanish-update-num-segments", FINDER, "    def update_num_segments(self):", "    def refresh_num_segments(self):", "ANALYSIS-ERROR",
       edits=[(NODE, "        self._sharefinder.update_num_segments()\n", "        self._sharefinder.refresh_num_segments()\n")]),
 ]
+
+# ---- the eight per-shareholder send functions of the Encoder go through _call_shareholder / _call_all_shareholders, which
+# are handed the bucket-writer method by name (faithful version of the seeded refactor C06-I: the DeferredList of
+# _gather_responses is still built before the errbacks are attached)
+C06I_FAITHFUL = [('    pass\n\n',
+  '    pass\n'
+  '\n'
+  'def _consume_unhappiness(f):\n'
+  '    # All exceptions that occur while talking to a peer are handled in\n'
+  '    # Encoder._remove_shareholder. That might raise UploadUnhappinessError,\n'
+  '    # which will cause the DeferredList built by Encoder._gather_responses\n'
+  '    # to errback but which should otherwise be consumed. Allow\n'
+  '    # non-UploadUnhappinessError exceptions to pass through as an unhandled\n'
+  '    # errback. We use this in lieu of consumeErrors=True to allow coding\n'
+  '    # errors to be logged.\n'
+  '    f.trap(UploadUnhappinessError)\n'
+  '    return None\n'
+  '\n'),
+ ('        self.set_status("Starting shareholders")\n'
+  '        dl = []\n'
+  '        for shareid in list(self.landlords):\n'
+  '            d = self.landlords[shareid].put_header()\n'
+  '            d.addErrback(self._remove_shareholder, shareid, "start")\n'
+  '            dl.append(d)\n'
+  '        return self._gather_responses(dl)\n'
+  '\n',
+  '        self.set_status("Starting shareholders")\n        return self._call_all_shareholders("start", "put_header")\n\n'),
+ ('            return defer.succeed(None)\n'
+  '        sh = self.landlords[shareid]\n'
+  '        lognum2 = self.log("put_block to %s" % self.landlords[shareid],\n'
+  '                           parent=lognum, level=log.NOISY)\n'
+  '        d = sh.put_block(segment_num, block)\n'
+  '        def _done(res):\n'
+  '            self.log("put_block done", parent=lognum2, level=log.NOISY)\n'
+  '            return res\n'
+  '        d.addCallback(_done)\n'
+  '        d.addErrback(self._remove_shareholder, shareid,\n'
+  '                     "segnum=%d" % segment_num)\n'
+  '        return d\n'
+  '\n',
+  '            return defer.succeed(None)\n'
+  '        lognum2 = self.log("put_block to %s" % self.landlords[shareid],\n'
+  '                           parent=lognum, level=log.NOISY)\n'
+  '        def _done(res):\n'
+  '            self.log("put_block done", parent=lognum2, level=log.NOISY)\n'
+  '            return res\n'
+  '        return self._call_shareholder(shareid, "segnum=%d" % segment_num,\n'
+  '                                      "put_block", segment_num, block,\n'
+  '                                      on_success=_done)\n'
+  '\n'
+  '    def _call_shareholder(self, shareid, where, methname, *args, **kwargs):\n'
+  '        """\n'
+  '        Invoke one method of the bucket writer that holds ``shareid``. If the\n'
+  '        call fails, that shareholder is dropped (see ``_remove_shareholder``).\n'
+  '        Shares that have no shareholder (any more) are silently skipped.\n'
+  '\n'
+  '        :param where: describes the step, for the log and the error message\n'
+  '        :param on_success: optional callback run on the result of the call\n'
+  '        """\n'
+  '        on_success = kwargs.pop("on_success", None)\n'
+  '        assert not kwargs, kwargs\n'
+  '        if shareid not in self.landlords:\n'
+  '            return defer.succeed(None)\n'
+  '        d = getattr(self.landlords[shareid], methname)(*args)\n'
+  '        if on_success is not None:\n'
+  '            d.addCallback(on_success)\n'
+  '        d.addErrback(self._remove_shareholder, shareid, where)\n'
+  '        return d\n'
+  '\n'
+  '    def _call_all_shareholders(self, where, methname, *args):\n'
+  '        """\n'
+  '        Invoke the same bucket writer method, with the same arguments, on\n'
+  '        every current shareholder and wait for all of them.\n'
+  '        """\n'
+  '        dl = [self._call_shareholder(shareid, where, methname, *args)\n'
+  '              for shareid in list(self.landlords)]\n'
+  '        return self._gather_responses(dl)\n'
+  '\n'),
+ ('        d = defer.DeferredList(dl, fireOnOneErrback=True)\n'
+  '        def _eatUploadUnhappinessError(f):\n'
+  '            # all exceptions that occur while talking to a peer are handled\n'
+  '            # in _remove_shareholder. That might raise UploadUnhappinessError,\n'
+  '            # which will cause the DeferredList to errback but which should\n'
+  '            # otherwise be consumed. Allow non-UploadUnhappinessError exceptions\n'
+  '            # to pass through as an unhandled errback. We use this in lieu of\n'
+  '            # consumeErrors=True to allow coding errors to be logged.\n'
+  '            f.trap(UploadUnhappinessError)\n'
+  '            return None\n'
+  '        for d0 in dl:\n'
+  '            d0.addErrback(_eatUploadUnhappinessError)\n'
+  '        return d\n',
+  '        d = defer.DeferredList(dl, fireOnOneErrback=True)\n'
+  '        for d0 in dl:\n'
+  '            d0.addErrback(_consume_unhappiness)\n'
+  '        return d\n'),
+ ('        self.uri_extension_data["crypttext_root_hash"] = t[0]\n'
+  '        dl = []\n'
+  '        for shareid in list(self.landlords):\n'
+  '            dl.append(self.send_crypttext_hash_tree(shareid, all_hashes))\n'
+  '        return self._gather_responses(dl)\n'
+  '\n'
+  '    def send_crypttext_hash_tree(self, shareid, all_hashes):\n'
+  '        if shareid not in self.landlords:\n'
+  '            return defer.succeed(None)\n'
+  '        sh = self.landlords[shareid]\n'
+  '        d = sh.put_crypttext_hashes(all_hashes)\n'
+  '        d.addErrback(self._remove_shareholder, shareid, "put_crypttext_hashes")\n'
+  '        return d\n'
+  '\n',
+  '        self.uri_extension_data["crypttext_root_hash"] = t[0]\n'
+  '        return self._call_all_shareholders("put_crypttext_hashes",\n'
+  '                                           "put_crypttext_hashes", all_hashes)\n'
+  '\n'
+  '    def send_crypttext_hash_tree(self, shareid, all_hashes):\n'
+  '        return self._call_shareholder(shareid, "put_crypttext_hashes",\n'
+  '                                      "put_crypttext_hashes", all_hashes)\n'
+  '\n'),
+ ('        self.share_root_hashes[shareid] = t[0]\n'
+  '        if shareid not in self.landlords:\n'
+  '            return defer.succeed(None)\n'
+  '        sh = self.landlords[shareid]\n'
+  '        d = sh.put_block_hashes(all_hashes)\n'
+  '        d.addErrback(self._remove_shareholder, shareid, "put_block_hashes")\n'
+  '        return d\n'
+  '\n',
+  '        self.share_root_hashes[shareid] = t[0]\n'
+  '        return self._call_shareholder(shareid, "put_block_hashes",\n'
+  '                                      "put_block_hashes", all_hashes)\n'
+  '\n'),
+ ('    def send_one_share_hash_tree(self, shareid, needed_hashes):\n'
+  '        if shareid not in self.landlords:\n'
+  '            return defer.succeed(None)\n'
+  '        sh = self.landlords[shareid]\n'
+  '        d = sh.put_share_hashes(needed_hashes)\n'
+  '        d.addErrback(self._remove_shareholder, shareid, "put_share_hashes")\n'
+  '        return d\n'
+  '\n',
+  '    def send_one_share_hash_tree(self, shareid, needed_hashes):\n'
+  '        return self._call_shareholder(shareid, "put_share_hashes",\n'
+  '                                      "put_share_hashes", needed_hashes)\n'
+  '\n'),
+ ('        self.uri_extension_hash = hashutil.uri_extension_hash(uri_extension)\n'
+  '        dl = []\n'
+  '        for shareid in list(self.landlords):\n'
+  '            dl.append(self.send_uri_extension(shareid, uri_extension))\n'
+  '        return self._gather_responses(dl)\n'
+  '\n'
+  '    def send_uri_extension(self, shareid, uri_extension):\n'
+  '        sh = self.landlords[shareid]\n'
+  '        d = sh.put_uri_extension(uri_extension)\n'
+  '        d.addErrback(self._remove_shareholder, shareid, "put_uri_extension")\n'
+  '        return d\n'
+  '\n',
+  '        self.uri_extension_hash = hashutil.uri_extension_hash(uri_extension)\n'
+  '        return self._call_all_shareholders("put_uri_extension",\n'
+  '                                           "put_uri_extension", uri_extension)\n'
+  '\n'
+  '    def send_uri_extension(self, shareid, uri_extension):\n'
+  '        return self._call_shareholder(shareid, "put_uri_extension",\n'
+  '                                      "put_uri_extension", uri_extension)\n'
+  '\n'),
+ ('        self.set_encode_and_push_progress(extra=0.9)\n'
+  '        dl = []\n'
+  '        for shareid in list(self.landlords):\n'
+  '            d = self.landlords[shareid].close()\n'
+  '            d.addErrback(self._remove_shareholder, shareid, "close")\n'
+  '            dl.append(d)\n'
+  '        return self._gather_responses(dl)\n'
+  '\n',
+  '        self.set_encode_and_push_progress(extra=0.9)\n        return self._call_all_shareholders("close", "close")\n\n')]
+
+
+def _multi(mid, path, pairs, expected, extra=()):
+    (o, n) = pairs[0]
+    return M(mid, path, o, n, expected, edits=[(path, o2, n2) for (o2, n2) in pairs[1:]] + list(extra))
+
+
+SEND_BLOCK_VIA_HELPER = ('                                      "put_block", segment_num, block,\n')
+CRYPTTEXT_VIA_HELPER = ('        return self._call_all_shareholders("put_crypttext_hashes",\n'
+                        '                                           "put_crypttext_hashes", all_hashes)\n')
+HELPER_GETATTR = "        d = getattr(self.landlords[shareid], methname)(*args)\n"
+
+MUTANTS += [
+    _multi("benign-c06i-faithful-refactor-shareholder-call-helpers", ENC, C06I_FAITHFUL, None),
+    _multi("benign-c06i-shape-method-name-concatenated", ENC, C06I_FAITHFUL, None,
+           extra=[(ENC, SEND_BLOCK_VIA_HELPER, '                                      "put_" + "block", segment_num, block,\n')]),
+    _multi("benign-c06i-shape-bound-method-handed-to-helper", ENC, C06I_FAITHFUL, None,
+           extra=[(ENC, HELPER_GETATTR, "        d = (methname if callable(methname) else getattr(self.landlords[shareid], methname))(*args)\n")]),
+    _multi("c06i-shape-crypttext-hash-tree-step-sends-nothing", ENC, C06I_FAITHFUL, "C01.4",
+           extra=[(ENC, CRYPTTEXT_VIA_HELPER, "        return defer.succeed(None)\n")]),
+    _multi("c06i-shape-uri-extension-step-closes-instead", ENC, C06I_FAITHFUL, "C01.4",
+           extra=[(ENC, '        return self._call_all_shareholders("put_uri_extension",\n'
+                        '                                           "put_uri_extension", uri_extension)\n',
+                   '        return self._call_all_shareholders("put_uri_extension", "close")\n')]),
+    _multi("c06i-shape-helper-handed-block-and-segnum-swapped", ENC, C06I_FAITHFUL, "C01.13",
+           extra=[(ENC, SEND_BLOCK_VIA_HELPER, '                                      "put_block", block, segment_num,\n')]),
+    _multi("c06i-shape-helper-calls-the-writer-of-share-zero", ENC, C06I_FAITHFUL, "C01.13",
+           extra=[(ENC, HELPER_GETATTR, "        d = getattr(self.landlords[min(self.landlords)], methname)(*args)\n")]),
+    _multi("c06i-shape-helper-skips-when-a-callback-is-given", ENC, C06I_FAITHFUL, "C01.13",
+           extra=[(ENC, "        if shareid not in self.landlords:\n            return defer.succeed(None)\n        d = getattr(",
+                   "        if shareid not in self.landlords or on_success is not None:\n            return defer.succeed(None)\n        d = getattr(")]),
+    _multi("c06i-shape-method-name-from-an-attribute", ENC, C06I_FAITHFUL, "ANALYSIS-ERROR",
+           extra=[(ENC, SEND_BLOCK_VIA_HELPER, '                                      self._put_method, segment_num, block,\n')]),
+]
+
+# ---- codec.py with a shared _CRSParams base class; CRSDecoder.decode sorts the (share number, block) pairs together and
+# skips zfec for exactly the k primary blocks (faithful version of the seeded refactor C36-I: the shortcut returns the
+# SORTED blocks)
+C36I_FAITHFUL = [('"""\n\n', '"""\n\nfrom operator import itemgetter\n\n'),
+ ('\n@implementer(ICodecEncoder)\nclass CRSEncoder:\n    ENCODER_TYPE = b"crs"\n\n',
+  '\n'
+  'class _CRSParams:\n'
+  '    """\n'
+  '    The (data_size, k, N) bookkeeping is the same on the encoding and on the\n'
+  '    decoding side: a segment of data_size bytes is cut into k primary blocks\n'
+  '    of share_size bytes each, numbered 0..k-1, and zfec derives the secondary\n'
+  '    blocks k..N-1 from them.\n'
+  '    """\n'
+  '\n'),
+ ('        self.share_size = mathutil.div_ceil(data_size, required_shares)\n'
+  '        self.last_share_padding = mathutil.pad_size(self.share_size, required_shares)\n',
+  '        self.share_size = mathutil.div_ceil(data_size, required_shares)\n'
+  '        self.primary_share_ids = list(range(required_shares))\n'
+  '\n'
+  '\n'
+  '@implementer(ICodecEncoder)\n'
+  'class CRSEncoder(_CRSParams):\n'
+  '    ENCODER_TYPE = b"crs"\n'
+  '\n'
+  '    def set_params(self, data_size, required_shares, max_shares):\n'
+  '        _CRSParams.set_params(self, data_size, required_shares, max_shares)\n'
+  '        self.last_share_padding = mathutil.pad_size(self.share_size, required_shares)\n'),
+ ('@implementer(ICodecDecoder)\n'
+  'class CRSDecoder:\n'
+  '\n'
+  '    def set_params(self, data_size, required_shares, max_shares):\n'
+  '        self.data_size = data_size\n'
+  '        self.required_shares = required_shares\n'
+  '        self.max_shares = max_shares\n'
+  '\n'
+  '        self.chunk_size = self.required_shares\n'
+  '        self.num_chunks = mathutil.div_ceil(self.data_size, self.chunk_size)\n'
+  '        self.share_size = self.num_chunks\n'
+  '        self.decoder = zfec.Decoder(self.required_shares, self.max_shares)\n',
+  '@implementer(ICodecDecoder)\n'
+  'class CRSDecoder(_CRSParams):\n'
+  '\n'
+  '    def set_params(self, data_size, required_shares, max_shares):\n'
+  '        _CRSParams.set_params(self, data_size, required_shares, max_shares)\n'
+  '        self.chunk_size = self.required_shares\n'
+  '        self.num_chunks = self.share_size\n'
+  '        self.decoder = zfec.Decoder(self.required_shares, self.max_shares)\n'),
+ ('                     len(some_shares), self.required_shares)\n'
+  '        return await defer_to_thread(\n'
+  '            self.decoder.decode,\n'
+  '            some_shares,\n'
+  '            [int(s) for s in their_shareids]\n'
+  '        )\n'
+  '\n',
+  '                     len(some_shares), self.required_shares)\n'
+  '        # Keep every block paired with its share number while we put them\n'
+  '        # into share-number order, so the two lists cannot get out of step.\n'
+  '        blocks = sorted(zip([int(s) for s in their_shareids], some_shares),\n'
+  '                        key=itemgetter(0))\n'
+  '        shareids = [shareid for (shareid, _) in blocks]\n'
+  '        if shareids == self.primary_share_ids:\n'
+  '            # We were given exactly the k primary blocks, which zfec hands\n'
+  "            # back untouched: there is nothing to compute, so don't bother\n"
+  '            # the CPU thread pool with it.\n'
+  '            return [block for (_, block) in blocks]\n'
+  '        shares = [block for (_, block) in blocks]\n'
+  '        return await defer_to_thread(self.decoder.decode, shares, shareids)\n'
+  '\n')]
+
+SORTED_SHORTCUT = "            return [block for (_, block) in blocks]\n"
+SORTED_PAIRS = ("        blocks = sorted(zip([int(s) for s in their_shareids], some_shares),\n"
+                "                        key=itemgetter(0))\n")
+
+MUTANTS += [
+    _multi("benign-c36i-faithful-refactor-pairs-sorted-together", CODEC, C36I_FAITHFUL, None),
+    _multi("benign-c36i-shape-pairs-indexed", CODEC, C36I_FAITHFUL, None,
+           extra=[(CODEC, SORTED_SHORTCUT, "            return [pair[1] for pair in blocks]\n")]),
+    _multi("c36i-shape-shortcut-returns-the-unsorted-blocks", CODEC, C36I_FAITHFUL, "C01.15",
+           extra=[(CODEC, SORTED_SHORTCUT, "            return list(some_shares)\n")], ),
+    _multi("c36i-shape-only-the-share-numbers-are-sorted", CODEC, C36I_FAITHFUL, "C01.15",
+           extra=[(CODEC, "        shares = [block for (_, block) in blocks]\n", "        shares = list(some_shares)\n")]),
+    _multi("c36i-shape-shortcut-returns-the-share-numbers", CODEC, C36I_FAITHFUL, "C01.15",
+           extra=[(CODEC, SORTED_SHORTCUT, "            return [block for (block, _) in blocks]\n")]),
+    _multi("c36i-shape-shortcut-taken-for-any-k-ids-of-the-right-length", CODEC, C36I_FAITHFUL, "C01.15",
+           extra=[(CODEC, "        if shareids == self.primary_share_ids:\n", "        if len(shareids) == len(self.primary_share_ids):\n")]),
+    _multi("c36i-shape-primary-ids-count-from-one", CODEC, C36I_FAITHFUL, "C01.15",
+           extra=[(CODEC, "        self.primary_share_ids = list(range(required_shares))\n",
+                   "        self.primary_share_ids = list(range(1, required_shares + 1))\n")]),
+    _multi("c36i-shape-pairs-zipped-with-the-reversed-blocks", CODEC, C36I_FAITHFUL, "C01.15",
+           extra=[(CODEC, SORTED_PAIRS, "        blocks = sorted(zip([int(s) for s in their_shareids], reversed(some_shares)),\n"
+                                        "                        key=itemgetter(0))\n")]),
+    _multi("c36i-shape-base-share-size-divides-by-the-total-number-of-shares", CODEC, C36I_FAITHFUL, "C01.1",
+           extra=[(CODEC, "        self.share_size = mathutil.div_ceil(data_size, required_shares)\n        self.primary_share_ids",
+                   "        self.share_size = mathutil.div_ceil(data_size, max_shares)\n        self.primary_share_ids")]),
+    _multi("vanish-c36i-shape-base-set-params-not-called", CODEC, C36I_FAITHFUL, "ANALYSIS-ERROR",
+           extra=[(CODEC, "        _CRSParams.set_params(self, data_size, required_shares, max_shares)\n        self.last_share_padding",
+                   "        self.data_size, self.required_shares, self.max_shares = data_size, required_shares, max_shares\n"
+                   "        self.last_share_padding")]),
+]
